@@ -305,3 +305,22 @@ Definition expected_tokens_bi (c : case) : list Z :=
       end
   | _ => [1]
   end.
+
+(* one entry point for mixed batches: tag 1 = a program with built-in atoms (judge_bi) *)
+Definition judge_tagged (x : Z * case) : Z :=
+  if fst x =? 1 then judge_bi (snd x) else judge (snd x).
+
+(* every kind of case of one run in one batch (fewer coqc starts): *)
+Inductive anycase :=
+| APlain (c : case)                    (* judge *)
+| ABuiltin (c : case)                  (* judge_bi *)
+| ARewrite (x : list rule * list Z)    (* judge_rewrite *)
+| ACycle (x : case * Z).               (* judge_cyc *)
+
+Definition judge_any (a : anycase) : Z :=
+  match a with
+  | APlain c => judge c
+  | ABuiltin c => judge_bi c
+  | ARewrite x => judge_rewrite x
+  | ACycle x => judge_cyc x
+  end.
